@@ -11,7 +11,8 @@ TRUSTED_BASE = [
 ]
 ASSUMPTIONS = [
     'serial CPU (cython) backend, LinkedListNNPS (the default of Interpolator and SPHEvaluator)',
-    'update_particle_arrays is given arrays with the same names, in the same order, with the same properties (documented precondition); different source arrays may have different property sets',
+    'update_particle_arrays is given arrays with the same names, in the same order, with the same properties and constants (documented precondition); different source arrays may have different property sets',
+    'the smoothing length of the target points is the largest h of the real source particles at the time the points were set (what Interpolator documents by its code; the property text does not fix it)',
     'after an in-place change of particles update() is called before interpolate (documented contract); histories that do not are not interpolated',
     'periodic boxes at least twice the kernel support wide',
 ]
@@ -24,25 +25,33 @@ LEVEL_TEXT = ("Lean 4 theorems over every neighbour list, every ordered field, a
               "summation_density_is_sum, neighbour_order_irrelevant, out_of_range_sources_irrelevant, source_arrays_add_up, "
               "order1_system_of_affine_field, order1_truncated_system, order1_reproduces_linear) and over every history of "
               "set_interpolation_points / update_particle_arrays / update / in-place changes (bindings_current, "
-              "neighbours_current, evaluator_bindings_current) and, including earlier interpolate calls of other "
+              "neighbours_current, evaluator_bindings_current; constants_current, evaluator_constants_current, "
+              "constant_values_current: the constants user-supplied equations read are those of the arrays currently "
+              "bound; sph_const_is_documented_sum) and, including earlier interpolate calls of other "
               "properties and arrays that arrive with a used temp_prop, over the staging of the requested property "
               "(missing_property_staged_as_zeros, interpolate_stages_requested_property, "
               "interpolate_independent_of_history) and over every shape and memory layout of the caller's "
               "coordinate arrays (result_index_matches_point, squeezed_result_index_matches_point, "
               "every_target_particle_is_returned, target_points_independent_of_layout: ravel on the way in, "
-              "reshape + squeeze on the way out) about a hand-written model that transcribes the five "
+              "reshape + squeeze on the way out) and every dtype of them (target_h_is_max_source_h, "
+              "target_h_independent_of_points, target_coords_cast_index: the target particles sit at the caller's "
+              "points converted to double and carry the largest source h as a double) about a hand-written model that transcribes the five "
               "interpolation equations as folds and the Interpolator/SPHEvaluator bindings as a state machine; the model is "
               "tied to the run-time-compiled evaluators on every run by bit-exact differential execution at Float "
               "(values, summation densities, moment matrices, right-hand sides, solutions, binding states, the "
               "temp_prop contents interpolate stages per source array given what was there before, the target "
-              "particles made from N-d coordinate arrays in C/Fortran/permuted/strided/reversed layouts, the "
+              "particles made from N-d coordinate arrays in C/Fortran/permuted/strided/reversed layouts and of "
+              "dtype float64/float32/int64/int32 or Python lists, their smoothing lengths, the objects whose "
+              "property carrays and whose constant carrays each generated ParticleArrayWrapper holds, the "
               "un-flattened result), and the "
               "property's own predicate is evaluated by brute force on the real code, with the source values read "
               "from the requested property itself (zeros for arrays lacking it), entry idx judged at the caller's "
-              "(x[idx], y[idx], z[idx]), order1 volumes from a brute-force summation density over real, "
+              "(x[idx], y[idx], z[idx]) with the target smoothing length computed from the history, user-supplied "
+              "equations (Interpolator(equations=...), SPHEvaluator) judged with the constants of the arrays "
+              "currently set, order1 volumes from a brute-force summation density over real, "
               "Remote-tagged and periodic-image sources with rho not supplied, to produce replays.")
 LEVEL_NOTE = ("Trusted: Lean kernel, axioms propext/Classical.choice/Quot.sound; the hand-written model (checked by the "
-              "correspondence: ~170 histories, several thousand destination points quick); kernel values are inputs "
+              "correspondence: ~200 histories, several thousand destination points quick); kernel values are inputs "
               "(harness evaluates the pure-Python kernel classes; C08 covers them); exact-field arithmetic in place of IEEE "
               "doubles; order1_reproduces_linear is about any exact solution of the system handed to gj_solve (soundness of "
               "gj_solve itself is property C13), the tie runs the real gj_solve model bit-exactly; LinkedListNNPS / serial "
